@@ -13,6 +13,8 @@
      r_dest, r_sub, r_pair, r_born, r_phase   a resolver: looked-up address, the subnet entry read at
                      its start, the pair it was called with, start instant, PWait tries deadline |
                      PDone status instant cause (CCache | CBudget | CSend)
+     is_wait s rid m D / is_done s rid m D st   resolver rid runs on machine m, looks up D, and is
+                     waiting / has returned st
      owner_mac cfg s ip mac   mac is the MAC of a machine that listens on ip, may claim ip, and is the
                      only machine that may claim ip
      BUDGET          RESEND_TRIES * RESEND_DELAY = 2 s
@@ -205,6 +207,29 @@ Theorem C06_same_answer_unflipped : forall cfg s rid1 rid2 r1 r2 st1 st2 t1 t2 c
   st1 = st2.
 Proof. exact same_answer_unflipped. Qed.
 Print Assumptions C06_same_answer_unflipped.
+
+(* sharper form for concurrency (the hypothesis the design anticipated): two resolvers of one
+   address on one machine that are waiting at the same moment finish with the same answer,
+   provided no packet of that address overwrites a cached failure WHILE a resolver of it is still
+   waiting on that machine (late_answer_to_waiter: exactly the step of C06_same_answer_refuted).
+   Overwriting a cached failure after everybody has returned is allowed. *)
+Theorem C06_same_answer_concurrent : forall cfg sa tr s rid1 rid2 m D st1 st2,
+  wf_cfg cfg -> (ARP_SIZE <= cfg_mtu cfg)%N -> reachable cfg sa -> rid1 <> rid2 ->
+  is_wait sa rid1 m D -> is_wait sa rid2 m D ->
+  run cfg sa tr = Ok s -> no_late_answer_to_waiter cfg sa tr ->
+  is_done s rid1 m D st1 -> is_done s rid2 m D st2 -> st1 = st2.
+Proof. exact same_answer_concurrent. Qed.
+Print Assumptions C06_same_answer_concurrent.
+
+Example C06_example_concurrent_hypotheses :
+  exists sa s,
+    run wcfg_subnet (init wcfg_subnet) (firstn 4 wtrace_agree) = Ok sa /\
+    is_wait sa 1%N 0%nat 167772162%N /\ is_wait sa 2%N 0%nat 167772162%N /\
+    run wcfg_subnet sa (skipn 4 wtrace_agree) = Ok s /\
+    no_late_answer_to_waiter wcfg_subnet sa (skipn 4 wtrace_agree) /\
+    is_done s 1%N 0%nat 167772162%N (SOk 1) /\ is_done s 2%N 0%nat 167772162%N (SOk 1).
+Proof. exact concurrent_hypotheses_satisfiable. Qed.
+Print Assumptions C06_example_concurrent_hypotheses.
 
 (* ------------------------------------------------------------------ trace validation *)
 
